@@ -1172,4 +1172,455 @@ theorem validateVariables_locs (S : Schema) (D : Document) (fuel : Nat) :
     LocsIn D (Model.validateVariables S D fuel).1 :=
   validateVariablesDefs_locs S D fuel D (fun _ h => h)
 
+/-! ## addFieldSelections: every collected field reference comes from a node of the document -/
+
+/-- The positions an error of the overlapping-fields pass can take from a field reference. -/
+def FOk (P : List Pos) (f : FRef) : Prop :=
+  f.pos ∈ P ∧ f.npos ∈ P ∧ f.setPos ∈ P ∧ argsPositions f.args ⊆ P ∧ optSetPositions f.sel ⊆ P
+
+def ResOk {α : Type} (P : List Pos) (Q : α → Prop) : Res α → Prop
+  | .ok a => Q a
+  | .err e => e.locs ⊆ P
+  | .fuelOut => True
+
+theorem addSel_ok (S : Schema) (D : Document) :
+    ∀ (fuel : Nat) (scope : Option String) (sp : Pos) (sels : List Selection) (acc : List FRef) (vis : List Pos),
+      sp ∈ docPositions D → selsPositions sels ⊆ docPositions D → (∀ f ∈ acc, FOk (docPositions D) f) →
+      ResOk (docPositions D) (fun r => ∀ f ∈ r.1, FOk (docPositions D) f) (addSel S D fuel scope sp sels acc vis)
+  | 0, _, _, _, _, _, _, _, _ => by simp [addSel, ResOk]
+  | fuel + 1, scope, sp, [], acc, vis, _, _, hacc => by simpa [addSel, ResOk] using hacc
+  | fuel + 1, scope, sp, .field al n np args dirs sel :: rest, acc, vis, hsp, hs, hacc => by
+    simp only [selsPositions, selPositions_field, List.cons_subset, List.append_subset] at hs
+    simp only [addSel]
+    apply addSel_ok S D fuel scope sp rest _ vis hsp hs.2
+    intro f hf
+    simp only [List.mem_append, List.mem_singleton] at hf
+    rcases hf with hf | hf
+    · exact hacc f hf
+    · subst hf
+      exact ⟨fieldPos_in hs.1.1 hs.1.2.1, hs.1.2.1, hsp, hs.1.2.2.1.1, hs.1.2.2.2⟩
+  | fuel + 1, scope, sp, .inline tc dirs ss p :: rest, acc, vis, hsp, hs, hacc => by
+    simp only [selsPositions, selPositions, List.cons_subset, List.append_subset] at hs
+    simp only [addSel]
+    split
+    · exact addSel_ok S D fuel scope sp rest acc vis hsp hs.2 hacc
+    · have h1 := addSel_ok S D fuel (Model.inlineScope S scope tc) ss.pos ss.sels acc (ss.pos :: vis)
+        (hs.1.2.2.2 (setPos_mem ss)) (fun _ hp => hs.1.2.2.2 (selsPositions_sub ss hp)) hacc
+      cases hr : addSel S D fuel (Model.inlineScope S scope tc) ss.pos ss.sels acc (ss.pos :: vis) with
+      | ok r =>
+        obtain ⟨acc', vis'⟩ := r
+        rw [hr] at h1
+        exact addSel_ok S D fuel scope sp rest acc' vis' hsp hs.2 h1
+      | err e => rw [hr] at h1; exact h1
+      | fuelOut => trivial
+  | fuel + 1, scope, sp, .spread n np dirs p :: rest, acc, vis, hsp, hs, hacc => by
+    simp only [selsPositions, selPositions, List.cons_subset, List.append_subset] at hs
+    simp only [addSel]
+    split
+    · simp [ResOk, hs.1.1]
+    · rename_i f hf
+      have hfi := fragLast_in hf
+      split
+      · exact addSel_ok S D fuel scope sp rest acc vis hsp hs.2 hacc
+      · have h1 := addSel_ok S D fuel (Model.namedType S f.tc) f.sel.pos f.sel.sels acc (f.sel.pos :: vis)
+          (hfi.2.2.2.2 (setPos_mem f.sel)) (fun _ hp => hfi.2.2.2.2 (selsPositions_sub f.sel hp)) hacc
+        cases hr : addSel S D fuel (Model.namedType S f.tc) f.sel.pos f.sel.sels acc (f.sel.pos :: vis) with
+        | ok r =>
+          obtain ⟨acc', vis'⟩ := r
+          rw [hr] at h1
+          exact addSel_ok S D fuel scope sp rest acc' vis' hsp hs.2 h1
+        | err e => rw [hr] at h1; exact h1
+        | fuelOut => trivial
+
+theorem addFieldSelections_ok (S : Schema) (D : Document) (fuel : Nat) (scope : Option String)
+    (ss : Option SelSet) (acc : List FRef) (hss : optSetPositions ss ⊆ docPositions D)
+    (hacc : ∀ f ∈ acc, FOk (docPositions D) f) :
+    ResOk (docPositions D) (fun r => ∀ f ∈ r, FOk (docPositions D) f)
+      (addFieldSelections S D fuel scope ss acc) := by
+  unfold addFieldSelections
+  cases ss with
+  | none => exact hacc
+  | some ss =>
+    simp only [optSetPositions] at hss
+    have h1 := addSel_ok S D fuel scope ss.pos ss.sels acc [ss.pos] (hss (setPos_mem ss))
+      (fun _ hp => hss (selsPositions_sub ss hp)) hacc
+    simp only
+    cases hr : addSel S D fuel scope ss.pos ss.sels acc [ss.pos] with
+    | ok r => obtain ⟨acc', vis'⟩ := r; rw [hr] at h1; exact h1
+    | err e => rw [hr] at h1; exact h1
+    | fuelOut => trivial
+
+theorem addFieldSelections_ok_of_eq {S : Schema} {D : Document} {fuel : Nat} {scope : Option String}
+    {ss : Option SelSet} {acc fs : List FRef} (hss : optSetPositions ss ⊆ docPositions D)
+    (hacc : ∀ f ∈ acc, FOk (docPositions D) f) (h : addFieldSelections S D fuel scope ss acc = .ok fs) :
+    ∀ f ∈ fs, FOk (docPositions D) f := by
+  have := addFieldSelections_ok S D fuel scope ss acc hss hacc
+  rw [h] at this
+  exact this
+
+theorem addFieldSelections_err_of_eq {S : Schema} {D : Document} {fuel : Nat} {scope : Option String}
+    {ss : Option SelSet} {acc : List FRef} {e : Err} (hss : optSetPositions ss ⊆ docPositions D)
+    (hacc : ∀ f ∈ acc, FOk (docPositions D) f) (h : addFieldSelections S D fuel scope ss acc = .err e) :
+    e.locs ⊆ docPositions D := by
+  have := addFieldSelections_ok S D fuel scope ss acc hss hacc
+  rw [h] at this
+  exact this
+
+/-! ## validate_operations.go — subscriptions -/
+
+theorem subscriptionErrors_locs (S : Schema) (D : Document) (fuel : Nat) :
+    ∀ (ds : List Definition), (∀ d ∈ ds, d ∈ D) → LocsIn D (subscriptionErrors S D fuel ds).1 := by
+  intro ds
+  induction ds with
+  | nil => intro _; simp [subscriptionErrors, LocsIn]
+  | cons d rest ih =>
+    intro h
+    have ih := ih (fun d hd => h d (List.mem_cons_of_mem _ hd))
+    have hd := h d (by simp)
+    unfold subscriptionErrors
+    split
+    · rename_i heq; simp at heq
+    · rename_i kp name vars dirs sel rest' heq
+      simp only [List.cons.injEq] at heq
+      obtain ⟨hd1, hd2⟩ := heq
+      subst hd1 hd2
+      have hsel : optSetPositions (some sel) ⊆ docPositions D := by
+        simp only [optSetPositions]
+        exact defSel_in (d := .op (some (.subscription, kp)) name vars dirs sel) hd
+      have hsub := addFieldSelections_ok S D fuel (Model.opScope S (some (.subscription, kp))) (some sel) []
+        hsel (by simp)
+      cases hr : subscriptionErrors S D fuel rest with
+      | mk r fo =>
+        rw [hr] at ih
+        simp only at ih ⊢
+        split
+        · rename_i e he
+          rw [he] at hsub
+          exact (LocsP_cons _ _ _).2 ⟨hsub, ih⟩
+        · exact ih
+        · split
+          · exact (LocsP_cons _ _ _).2 ⟨by simp [opDef_pos_in hd], ih⟩
+          · exact ih
+    · rename_i d' rest' hne heq
+      simp only [List.cons.injEq] at heq
+      obtain ⟨hd1, hd2⟩ := heq
+      subst hd1 hd2
+      exact ih
+
+theorem validateOperationsGo_locs (S : Schema) (D : Document) (fuel : Nat) :
+    LocsIn D (Model.validateOperationsGo S D fuel).1 := by
+  unfold Model.validateOperationsGo
+  have h := subscriptionErrors_locs S D fuel D (fun _ h => h)
+  cases hr : subscriptionErrors S D fuel D with
+  | mk sub fo =>
+    rw [hr] at h
+    exact LocsIn_append (LocsIn_append
+      (operationLoopErrors_locs S _ [] D (fun d hd => def_mem_positions hd)) h) (loneAnonymousErrors_locs D)
+
+/-! ## validate_fields.go — second pass: overlapping fields -/
+
+def AltsOk (P : List Pos) : Alts → Prop
+  | .errs alts => LocsP P alts
+  | _ => True
+
+theorem anyOrder_ok {α : Type} (P : List Pos) (xs : List α) (m : Memo) (f : α → Memo → Alts × Memo)
+    (h : ∀ x ∈ xs, ∀ m, AltsOk P (f x m).1) : AltsOk P (anyOrder xs m f).1 := by
+  unfold anyOrder
+  suffices hgen : ∀ (st : Alts × Memo), AltsOk P st.1 →
+      AltsOk P (xs.foldl (fun (st : Alts × Memo) x =>
+        match st.1 with
+        | .fuelOut => st
+        | acc =>
+          match f x st.2 with
+          | (.fuelOut, _) => (.fuelOut, st.2)
+          | (.ok, m') => (acc, m')
+          | (.errs b, _) =>
+            (match acc with
+             | .errs a => (.errs (a ++ b), st.2)
+             | _ => (.errs b, st.2))) st).1 from hgen (.ok, m) trivial
+  induction xs with
+  | nil => intro st hst; simpa using hst
+  | cons x rest ih =>
+    intro st hst
+    simp only [List.foldl_cons]
+    apply ih (fun y hy => h y (List.mem_cons_of_mem _ hy))
+    have hf := h x (by simp) st.2
+    split
+    · exact hst
+    · split
+      · trivial
+      · exact hst
+      · rename_i b m' heq
+        rw [heq] at hf
+        split
+        · rename_i a ha
+          rw [ha] at hst
+          exact (LocsP_append _ _ _).2 ⟨hst, hf⟩
+        · exact hf
+
+theorem firstErr_ok {α : Type} (P : List Pos) (xs : List α) (f : α → Memo → Alts × Memo)
+    (h : ∀ x ∈ xs, ∀ m, AltsOk P (f x m).1) : ∀ m, AltsOk P (firstErr xs m f).1 := by
+  induction xs with
+  | nil => intro m; simp [firstErr, AltsOk]
+  | cons x rest ih =>
+    intro m
+    unfold firstErr
+    split
+    · exact ih (fun y hy => h y (List.mem_cons_of_mem _ hy)) _
+    · exact h x (by simp) m
+
+theorem mem_pairs {α : Type} (xs : List α) : ∀ p ∈ pairs xs, p.1 ∈ xs ∧ p.2 ∈ xs := by
+  induction xs with
+  | nil => simp [pairs]
+  | cons x rest ih =>
+    intro p hp
+    simp only [pairs, List.mem_append, List.mem_map] at hp
+    rcases hp with ⟨y, hy, rfl⟩ | hp
+    · simp [hy]
+    · have := ih p hp
+      exact ⟨List.mem_cons_of_mem _ this.1, List.mem_cons_of_mem _ this.2⟩
+
+theorem mem_pairs_group {fs : List FRef} {n : String} {P : List Pos} (hfs : ∀ f ∈ fs, FOk P f) :
+    ∀ p ∈ pairs (group fs n), FOk P p.1 ∧ FOk P p.2 := by
+  intro p hp
+  have := mem_pairs _ p hp
+  unfold group at this
+  exact ⟨hfs _ (List.mem_filter.1 this.1).1, hfs _ (List.mem_filter.1 this.2).1⟩
+
+theorem shapeType_err {f : FRef} {e : Err} (h : shapeType f = .error e) : e.locs = [f.pos] := by
+  unfold shapeType at h
+  split at h
+  · simp at h
+  · split at h
+    · simp only [Except.error.injEq] at h
+      subst h; rfl
+    · simp at h
+
+theorem sameResponseShape_ok (S : Schema) (D : Document) (cfuel : Nat) :
+    ∀ (fuel : Nat) (m : Memo) (a b : FRef), FOk (docPositions D) a → FOk (docPositions D) b →
+      AltsOk (docPositions D) (sameResponseShape S D cfuel fuel m a b).1
+  | 0, m, a, b, _, _ => by simp [Model.sameResponseShape, AltsOk]
+  | fuel + 1, m, a, b, ha, hb => by
+    simp only [Model.sameResponseShape]
+    split
+    · trivial
+    · split
+      · rename_i e he
+        simp [AltsOk, shapeType_err he, ha.1]
+      · split
+        · rename_i e he
+          simp [AltsOk, shapeType_err he, hb.1]
+        · split
+          · simp [AltsOk, ha.1, hb.1]
+          · split
+            · split
+              · trivial
+              · simp [AltsOk, ha.1, hb.1]
+            · split
+              · rename_i e he
+                simpa [AltsOk] using addFieldSelections_err_of_eq ha.2.2.2.2 (by simp) he
+              · trivial
+              · rename_i fs1 h1
+                have hfs1 := addFieldSelections_ok_of_eq ha.2.2.2.2 (by simp) h1
+                split
+                · rename_i e he
+                  simpa [AltsOk] using addFieldSelections_err_of_eq hb.2.2.2.2 hfs1 he
+                · trivial
+                · rename_i fs h2
+                  have hfs := addFieldSelections_ok_of_eq hb.2.2.2.2 hfs1 h2
+                  apply anyOrder_ok
+                  intro n _ m'
+                  apply firstErr_ok
+                  intro p hp m''
+                  have hp' := mem_pairs_group hfs p hp
+                  exact sameResponseShape_ok S D cfuel fuel m'' p.1 p.2 hp'.1 hp'.2
+
+theorem argumentsDiffer_locs {P : List Pos} {a b : FRef} {e : Err} (ha : FOk P a) (hb : FOk P b)
+    (h : argumentsDiffer a b = some e) : e.locs ⊆ P := by
+  unfold argumentsDiffer at h
+  split at h
+  · simp only [Option.some.injEq] at h
+    subst h
+    simp [ha.1, hb.1]
+  · simp only at h
+    obtain ⟨argB, hB, hg⟩ := List.exists_of_findSome?_eq_some h
+    split at hg
+    · simp only [Option.some.injEq] at hg
+      subst hg
+      simp [ha.1, hb.1]
+    · rename_i argA hA
+      split at hg
+      · simp at hg
+      · simp only [Option.some.injEq] at hg
+        subst hg
+        have hA' : argA ∈ a.args := by
+          have := List.mem_of_find?_eq_some hA
+          simpa using this
+        simp [argPos_in ha.2.2.2.1 argA hA', argPos_in hb.2.2.2.1 argB hB]
+
+theorem fieldsInSetCanMerge_ok (S : Schema) (D : Document) (cfuel : Nat) :
+    ∀ (fuel : Nat) (m : Memo) (fs : List FRef), (∀ f ∈ fs, FOk (docPositions D) f) →
+      AltsOk (docPositions D) (fieldsInSetCanMerge S D cfuel fuel m fs).1
+  | 0, m, fs, _ => by simp [fieldsInSetCanMerge, AltsOk]
+  | fuel + 1, m, fs, hfs => by
+    simp only [fieldsInSetCanMerge]
+    apply anyOrder_ok
+    intro n _ m'
+    apply firstErr_ok
+    intro p hp m''
+    have hp' := mem_pairs_group hfs p hp
+    obtain ⟨a, b⟩ := p
+    have ha : FOk (docPositions D) a := hp'.1
+    have hb : FOk (docPositions D) b := hp'.2
+    simp only
+    split
+    · trivial
+    · have hsh := fun m0 => sameResponseShape_ok S D cfuel (fuel + 1) m0 a b ha hb
+      split
+      · split
+        · simp [AltsOk, ha.2.2.1]
+        · simp [AltsOk, hb.2.2.1]
+        · split
+          · split
+            · simp [AltsOk, ha.2.1, hb.2.1]
+            · split
+              · rename_i e he
+                simpa [AltsOk] using argumentsDiffer_locs ha hb he
+              · split
+                · rename_i e he
+                  simpa [AltsOk] using addFieldSelections_err_of_eq ha.2.2.2.2 (by simp) he
+                · trivial
+                · rename_i fs1 h1
+                  have hfs1 := addFieldSelections_ok_of_eq ha.2.2.2.2 (by simp) h1
+                  split
+                  · rename_i e he
+                    simpa [AltsOk] using addFieldSelections_err_of_eq hb.2.2.2.2 hfs1 he
+                  · trivial
+                  · rename_i merged h2
+                    exact fieldsInSetCanMerge_ok S D cfuel fuel _ merged
+                      (addFieldSelections_ok_of_eq hb.2.2.2.2 hfs1 h2)
+          · trivial
+      · exact hsh _
+
+theorem mergeCheckSet_ok (S : Schema) (D : Document) (cfuel fuel : Nat) (scope : Option String) (ss : SelSet)
+    (h : setPositions ss ⊆ docPositions D) :
+    AltsOk (docPositions D) (mergeCheckSet S D cfuel fuel scope ss) := by
+  unfold mergeCheckSet
+  have hss : optSetPositions (some ss) ⊆ docPositions D := by simpa [optSetPositions] using h
+  split
+  · rename_i e he
+    simpa [AltsOk] using addFieldSelections_err_of_eq hss (by simp) he
+  · trivial
+  · rename_i fs hfs
+    exact fieldsInSetCanMerge_ok S D cfuel fuel _ fs (addFieldSelections_ok_of_eq hss (by simp) hfs)
+
+/-- Every alternative of every slot has its locations in `P`. -/
+def SlotsOk (P : List Pos) (sls : List Slot) : Prop := ∀ sl ∈ sls, LocsP P sl.alts
+
+theorem SlotsOk_nil (P : List Pos) : SlotsOk P [] := by simp [SlotsOk]
+
+theorem SlotsOk_append {P : List Pos} {a b : List Slot} (ha : SlotsOk P a) (hb : SlotsOk P b) :
+    SlotsOk P (a ++ b) := by
+  intro sl hsl
+  simp only [List.mem_append] at hsl
+  rcases hsl with h | h
+  · exact ha sl h
+  · exact hb sl h
+
+mutual
+theorem mergeSel_ok (S : Schema) (D : Document) (cfuel fuel : Nat) :
+    ∀ (scope : Option String) (sel : Selection), selPositions sel ⊆ docPositions D →
+      SlotsOk (docPositions D) (mergeSel S D cfuel fuel scope sel).1
+  | scope, .field al n np args dirs none, h => by simp [mergeSel, SlotsOk]
+  | scope, .field al n np args dirs (some ss), h => by
+    simp only [selPositions, List.cons_subset, List.append_subset] at h
+    simp only [mergeSel]
+    exact mergeSet_ok S D cfuel fuel _ ss h.2.2.2
+  | scope, .spread n np dirs p, h => by simp [mergeSel, SlotsOk]
+  | scope, .inline tc dirs ss p, h => by
+    simp only [selPositions, List.cons_subset, List.append_subset] at h
+    simp only [mergeSel]
+    exact mergeSet_ok S D cfuel fuel _ ss h.2.2.2
+theorem mergeSet_ok (S : Schema) (D : Document) (cfuel fuel : Nat) :
+    ∀ (scope : Option String) (ss : SelSet), setPositions ss ⊆ docPositions D →
+      SlotsOk (docPositions D) (mergeSet S D cfuel fuel scope ss).1
+  | scope, .mk sels p, h => by
+    have hc := mergeCheckSet_ok S D cfuel fuel scope (.mk sels p) h
+    simp only [setPositions, List.cons_subset] at h
+    simp only [mergeSet]
+    split
+    · rename_i alts ha
+      rw [ha] at hc
+      intro sl hsl
+      simp only [List.mem_singleton] at hsl
+      subst hsl
+      exact hc
+    · exact SlotsOk_nil _
+    · exact mergeSels_ok S D cfuel fuel scope sels h.2
+theorem mergeSels_ok (S : Schema) (D : Document) (cfuel fuel : Nat) :
+    ∀ (scope : Option String) (sels : List Selection), selsPositions sels ⊆ docPositions D →
+      SlotsOk (docPositions D) (mergeSels S D cfuel fuel scope sels).1
+  | scope, [], _ => by simp [mergeSels, SlotsOk]
+  | scope, s :: rest, h => by
+    simp only [selsPositions, List.append_subset] at h
+    have h1 := mergeSel_ok S D cfuel fuel scope s h.1
+    have h2 := mergeSels_ok S D cfuel fuel scope rest h.2
+    simp only [mergeSels]
+    exact SlotsOk_append h1 h2
+end
+
+theorem validateFields2_locs (S : Schema) (D : Document) (cfuel fuel : Nat) :
+    ∀ sl ∈ (Model.validateFields2 S D cfuel fuel).1, LocsIn D sl.alts := by
+  unfold Model.validateFields2
+  suffices hgen : ∀ (ds : List Definition) (acc : List Slot × Bool), (∀ d ∈ ds, d ∈ D) →
+      SlotsOk (docPositions D) acc.1 →
+      SlotsOk (docPositions D) (ds.foldl (fun (acc : List Slot × Bool) d =>
+        let (a, fa) := mergeSet S D cfuel fuel (Model.defScope S d) (Model.defSel d)
+        (acc.1 ++ a, acc.2 || fa)) acc).1 from hgen D ([], false) (fun _ h => h) (SlotsOk_nil _)
+  intro ds
+  induction ds with
+  | nil => intro acc _ hacc; simpa using hacc
+  | cons d rest ih =>
+    intro acc hds hacc
+    simp only [List.foldl_cons]
+    apply ih _ (fun x hx => hds x (List.mem_cons_of_mem _ hx))
+    exact SlotsOk_append hacc (mergeSet_ok S D cfuel fuel _ _ (defSel_in (hds d (by simp))))
+
+/-! ## The pipeline -/
+
+theorem single_ok {P : List Pos} {es : List Err} (h : LocsP P es) : SlotsOk P (single es) := by
+  intro sl hsl
+  simp only [single, List.mem_map] at hsl
+  obtain ⟨e, he, rfl⟩ := hsl
+  simp only [LocsP_cons, LocsP_nil, and_true]
+  exact h e he
+
+theorem allErrors_slotsOk (S : Schema) (D : Document) : SlotsOk (docPositions D) (Model.allErrors S D).slots := by
+  have hslots : (Model.allErrors S D).slots =
+      single (Model.validateDocument S D) ++ single (Model.validateOperationsGo S D (Model.fuelFor D)).1 ++
+      single (Model.validateFields1 S D) ++ (Model.validateFields2 S D (Model.fuelFor D) (Model.pairFuelFor D)).1 ++
+      single (Model.validateArguments S D) ++
+      single (Model.validateFragmentDeclarations S D) ++ single (Model.validateFragmentSpreads S D).1 ++
+      single (Model.validateValues S D) ++ single (Model.validateDirectives S D) ++
+      single (Model.validateVariables S D (Model.fuelFor D)).1 := rfl
+  rw [hslots]
+  refine SlotsOk_append (SlotsOk_append (SlotsOk_append (SlotsOk_append (SlotsOk_append (SlotsOk_append
+    (SlotsOk_append (SlotsOk_append (SlotsOk_append ?_ ?_) ?_) ?_) ?_) ?_) ?_) ?_) ?_) ?_
+  · simp [Model.validateDocument, single, SlotsOk]
+  · exact single_ok (validateOperationsGo_locs S D _)
+  · exact single_ok (validateFields1_locs S D)
+  · exact validateFields2_locs S D _ _
+  · exact single_ok (validateArguments_locs S D)
+  · exact single_ok (validateFragmentDeclarations_locs S D)
+  · exact single_ok (validateFragmentSpreads_locs S D)
+  · exact single_ok (validateValues_locs S D)
+  · exact single_ok (validateDirectives_locs S D)
+  · exact single_ok (validateVariables_locs S D _)
+
+/-- locations_in_document: every location of every error the model can report (whatever
+    alternative Go's map iteration picks) is the position of a node of the document. -/
+theorem locations_in_document (S : Schema) (D : Document) :
+    ∀ sl ∈ (Model.allErrors S D).slots, ∀ e ∈ sl.alts, ∀ l ∈ e.locs, l ∈ docPositions D :=
+  allErrors_slotsOk S D
+
 end ApiFu.C04
